@@ -184,6 +184,11 @@ func getField(name string, x ast.Node, parent *flds.Field) (flds.Field, bool) {
 	ast.Inspect(x, func(n ast.Node) bool {
 		switch t := n.(type) {
 		case *ast.Field:
+			if n != x {
+				// a field of an inline struct (or a parameter of a func) in
+				// this field's type: its tag and type are not this field's
+				return false
+			}
 			if t.Tag != nil {
 				tag = parseTag(t.Tag.Value)
 			}
